@@ -125,6 +125,9 @@ func (w *world) download(ai, bi int) {
 		}
 		if overlapRemoval {
 			w.s.Probe("create_torrent_raced_with_removal")
+		} else if w.s.PausedDuring(cl.begin, cl.end) {
+			// an injected task pause (slow handler) is a fault on the metainfo path too
+			w.s.Probe("create_torrent_failed_during_pause")
 		} else if !w.httpFaulty {
 			w.s.Fail("unexplained_error", "call#%d: %v without any injected fault on the metainfo path", cl.id, err)
 		}
